@@ -99,7 +99,18 @@ def run(tier, seed):
     n_real = 30 if tier == 'quick' else 400
     results = []
     INTERNAL = (AssertionError, AttributeError, RecursionError, RuntimeError, KeyError, NameError, IndexError)
-    for (year, forms, sseed, prof) in scenarios.scenario_stream(rng, n_real):
+    stream = list(scenarios.scenario_stream(rng, n_real))
+    # a dependent form requested on its own (its inputs and lines pull the other forms in on demand)
+    for (y_, fm_, sd_, pf_) in scenarios.special_scenarios():
+        if sd_ == 9003:
+            stream.append((y_, ['nc_d-400'], sd_, pf_))
+        if sd_ == 9004:
+            stream.append((y_, ['1040_sa'], sd_, pf_))
+    # four dependents (the most the forms have rows for)
+    for y_ in common.YEARS:
+        stream.append((y_, ['1040'], 777, {'status': 'MarriedFilingJointly', 'amounts': 'cents', 'wages': 30000, 'n_w2': 1, 'itemize': False, 'foreign': False,
+                                         'n_dep': 4, 'n_u17': 2, 'others': False, 'zero_frac': 0.8, 'benign_true': 0.5, 'overrides': {'principal_abode_us': 'yes'}}))
+    for (year, forms, sseed, prof) in stream:
         class S(H['solver'].Solver):
             def _attempt_field(self, field):
                 self.last = field.name()
@@ -110,7 +121,9 @@ def run(tier, seed):
         e = res['exc']
         if e is not None and isinstance(e, INTERNAL) and not isinstance(e, NotImplementedError):
             last = getattr(res['solver'], 'last', '?')
-            ck.violation('C10:%d:%s' % (year, last.replace(':0', '').replace(':1', '').replace(':2', '')),
+            # the key names the crash itself (line, exception, message): a known finding covers it only if it lists this very signature
+            sig = re.sub(r'\s+', ' ', '%s:%s' % (type(e).__name__, str(e)))[:90]
+            ck.violation('C10:%d:%s:run:%s' % (year, re.sub(r':\d+', '', last), sig),
                          'ty%d: evaluating %s raised %s (%s) instead of a value or a not-implemented report' % (
                              year, last, type(e).__name__, str(e)[:80]),
                          {'kind': 'failing-input', 'year': year, 'forms': forms, 'seed': sseed, 'profile': prof,
